@@ -612,16 +612,25 @@ def r11_1_last_action(ctx, prog, rule="R11.1"):
                     ok, why = False, "next_timeout on %r" % (nt[3],)
                 elif "instant" not in repr(nt[2][1]):
                     ok, why = False, "next_timeout is not given the current instant: %r" % (nt[2][1],)
-                after = [e for e in pa.log[idx + 1:] if e[0] == "call" and not re.search(RX_PUSH, e[1])
-                         and not re.search(r"StunMessage::transaction_id|fmt::|Argument::", e[1])]
-                after_w = [e for e in pa.log[idx + 1:] if e[0] in ("write", "write-elem", "write-unknown-pointer")]
+                # after the deadline was read nothing may change the timer heap or the table (the pair reported would be
+                # stale): calls that can mutate that state (by their `&mut` arguments) and writes to it; pushing the events
+                # themselves, building iterators over them and formatting are not such work
+                def touches_state(e):
+                    muts = e[5] if len(e) > 5 else ()
+                    return any(m and m[0] == "client" and (len(m) == 1 or str(m[1]) in (STATE_FIELDS - {"transaction_events"})) for m in muts)
+                after = [e for e in pa.log[idx + 1:] if e[0] == "call" and not re.search(RX_PUSH, e[1]) and touches_state(e)]
+                after_w = [e for e in pa.log[idx + 1:] if e[0] in ("write", "write-elem") and e[1] == "client"
+                           and e[2] and str(e[2][0]) in (STATE_FIELDS - {"transaction_events"})] + \
+                          [e for e in pa.log[idx + 1:] if e[0] == "write-unknown-pointer"]
                 if after or after_w:
-                    ok, why = False, "work after the notification point: %s" % [C.short(e[1]) for e in after + after_w][:4]
-                others = [(i, name) for (i, name, ev) in pa.pushes() if i > idx and name != "StunClientEvent::RestransmissionTimeOut"]
+                    ok, why = False, "work after the notification point: %s" % [C.short(e[1]) if e[0] == "call" else e[:3] for e in after + after_w][:4]
+                # the notification is the last event of the batch
+                nidx = max([i for (i, name, ev) in pa.pushes() if name == "StunClientEvent::RestransmissionTimeOut"], default=None)
+                others = [(i, name) for (i, name, ev) in pa.pushes() if nidx is not None and i > nidx and name != "StunClientEvent::RestransmissionTimeOut"]
                 if others:
                     ok, why = False, "events after the notification: %s" % others
                 if nt_choice == "Some":
-                    if len(notif) != 1 or notif[0][0] < idx:
+                    if len(notif) != 1 or notif[0][0] < idx:      # pushed after the deadline was read
                         ok, why = False, "pending deadline but %d notification(s)" % len(notif)
                     elif "next_timeout@" not in repr(notif[0][1]):
                         ok, why = False, "notification does not carry next_timeout's pair: %r" % (notif[0][1],)
